@@ -4,9 +4,10 @@ open Kv Drv
 
 /-
   C18 line (one end_session request; self-contained):
-    router=provider|legacy  termfromreq=0|1  issuer=<issuer of THIS request>  default=<default logout URI>
+    router=provider|legacy  termfromreq=0|1  termfail=0|1 (the storage refuses to terminate)  issuer=<issuer of THIS request>  default=<default logout URI>
     cl.n / cl.<i>.{id,postlogout,globs,plglobs}          registrations (globs/plglobs present = opted in)
-    ks.*                                                  published key set
+    ks.*                                                  the OP's own published key set (storage)
+    opt.n / opt.<i>.k = at|hint / opt.<i>.ks.*            the key-set options NewProvider got, in order: WithAccessTokenKeySet / WithIDTokenHintKeySet
     hint=0|1 [+ t.* c.* j.* s<i>.* : the hint as the parsers see it]   cid= plu= state=   formerr=0|1
     pm.n / pm.<i>.{g,r}      path.Match(g, plu) for every glob of every client: r = 1 | 0 | err
     up.n / up.<i>.{s,ok,base,rawq,fq,frag,unread,qn,q.<j>.k,q.<j>.v}            url.Parse of the default URI and of plu
@@ -45,12 +46,20 @@ def urlParseOf (l : Line) : String → Go.R SessURL :=
     | some (_, r) => r
     | none => .error "oracle-miss"
 
+/-- the key-set options the provider was constructed with, in order -/
+def parseOpts (l : Line) : List (String × KeySet) :=
+  (List.range (nat l "opt.n")).map fun i => (str l ("opt." ++ toString i ++ ".k"), parseKeySet l ("opt." ++ toString i ++ ".ks."))
+
+/-- the key set the deployment configured with the option `k` (a later option replaces an earlier one) -/
+def lastOpt (l : Line) (k : String) : Option KeySet := (((parseOpts l).filter (·.1 == k)).map (·.2)).getLast?
+
 def cfgOf (l : Line) : C18.Cfg :=
-  { issuer := str l "issuer", keys := parseKeySet l "ks.", algs := [], clients := parseClients l, defaultURI := str l "default" }
+  { issuer := str l "issuer", keys := parseKeySet l "ks.", hintKeys := lastOpt l "hint", accessTokenKeys := lastOpt l "at",
+    algs := [], clients := parseClients l, defaultURI := str l "default" }
 
 def reqOf (l : Line) : C18.Req :=
   { hint := if bool l "hint" then some (parseToken l) else none, clientID := str l "cid", plu := str l "plu", state := str l "state",
-    malformed := bool l "formerr" }
+    malformed := bool l "formerr", termRefused := bool l "termfail" }
 
 def orcOf (l : Line) : C18.Orc := { pathMatch := pathMatchOf l, urlParse := urlParseOf l }
 
